@@ -466,6 +466,55 @@ func c12Seq(tier string, seed int64, idx int, scratch string) rt.CaseResult {
 		}
 		c.AddDistinct(fmt.Sprintf("%s/several-files-open/%d/order=%v", modeName(mode), nf, order))
 	}
+	// 130 files open at the same time on one client; ordinary calls in between (bounded by a
+	// five-second context: a client that has run out of something answers late or not at all)
+	if idx%4 == 3 || idx%4 == 0 {
+		const nOpen = 130
+		var files []fs_db.File
+		var wants [][]byte
+		rp := map[string]any{"variant": "many-files-open", "mode": modeName(mode), "files": nOpen}
+		for j := 0; j < nOpen; j++ {
+			cctx, cancel := context.WithTimeout(ctxBg, 5*time.Second)
+			f, err := env.DB.Create(cctx, fmt.Sprintf("open%03d", j))
+			if err == nil {
+				b := seqrun.Content(fmt.Sprintf("c%d-op%d", idx, j), 100+j)
+				_, err = f.Write(b)
+				wants = append(wants, b)
+				files = append(files, f)
+			}
+			defer cancel()
+			if err != nil {
+				c.Violate("create-failed class="+string(seqrun.Class(err))+" variant=many-files-open", fmt.Sprintf("file number %d of %d that are open at the same time: %v", j+1, nOpen, err), rp)
+				return c
+			}
+		}
+		c.Evals++
+		octx, ocancel := context.WithTimeout(ctxBg, 5*time.Second)
+		err1 := env.DB.Set(octx, "while-open", []byte("x"))
+		_, err2 := env.DB.Get(octx, "while-open")
+		_, err3 := env.DB.GetKeys(octx)
+		ocancel()
+		if err1 != nil || err2 != nil || err3 != nil {
+			c.Violate("call-fails-while-many-files-open mode="+modeName(mode), fmt.Sprintf("with %d files open on the client: Set %v, Get %v, GetKeys %v", nOpen, err1, err2, err3), rp)
+			return c
+		}
+		for j, f := range files {
+			if _, err := f.Write([]byte("tail")); err != nil {
+				c.Violate("create-write-close-error variant=many-files-open", err.Error(), rp)
+				return c
+			}
+			if err := f.Close(); err != nil {
+				c.Violate("create-write-close-error variant=many-files-open", err.Error(), rp)
+				return c
+			}
+			b, gerr := env.DB.Get(ctxBg, fmt.Sprintf("open%03d", j))
+			if gerr != nil || !bytes.Equal(b, append(append([]byte(nil), wants[j]...), "tail"...)) {
+				c.Violate("stored-content-differs mode="+modeName(mode)+" variant=many-files-open", fmt.Sprintf("file %d of %d: Get returns %s (%v)", j, nOpen, seqrun.Describe(b), gerr), rp)
+				return c
+			}
+		}
+		c.AddDistinct(fmt.Sprintf("%s/many-files-open/%d", modeName(mode), nOpen))
+	}
 	if idx == 0 {
 		c.Sample = map[string]any{"sequences_in_this_case": len(mine), "first": mine[:min(4, len(mine))]}
 	}
